@@ -15,7 +15,7 @@ import collections, itertools, json, os, re, shlex
 from vlib import build, run
 from vlib.core import Ctx, pmap, sha
 
-ITEMS = [("-DA",), ("-D", "A"), ("-DA=1",), ("-DA=x y",), ('-DS="q"',), ("-UA",), ("-U", "A"),
+ITEMS = [("-DA",), ("-D", "A"), ("-DA=1",), ("-DA=x y",), ('-DS="q"',), ("-DS='q'",), ("-UA",), ("-U", "A"),
          ("-Iinc",), ("-I", "inc"), ("-I/abs/inc",), ("-isystem", "sys"), ("-std=c99",), ("-std=gnu++17",),
          ("-c",), ("-o", "out.o"), ("-o", "-DX"), ("-include", "pre.h"), ("-MF", "-DY.d"),
          ("-fPIC",), ("-fpie",), ("-municode",)]
